@@ -124,7 +124,40 @@ def run_case(c):
     if k == "canary":
         kind, cls, got, warns = parse(dec(i["m"]))
         return {"ok": len(got) == 1 and got[0].device_state == DeviceState.OFF}
+    if k == "renames":
+        # the same device (same id) broadcasts again after its name / key / address changed: every broadcast is decoded on its own
+        rnd = random.Random(i["seed"])
+        for n in range(i["n"]):
+            m1 = bytearray(gen(rnd))
+            m2 = bytearray(gen(rnd, dt=BY_CODE[spec.model_code(bytes(m1))]))
+            m2[18:21] = m1[18:21]
+            for m in (bytes(m1), bytes(m2), bytes(m1)):
+                r = check(m)
+                if not r["ok"]:
+                    r.update(evaluations=2 * n + 1, detail="a device that broadcast before (same id) is not decoded from its own datagram",
+                             case={"prop": "C05", "kind": "check", "inputs": {"m": canon(m)}})
+                    return r
+        return {"ok": True, "evaluations": 3 * i["n"]}
     if k == "sweep":
+        import logging
+        lg = logging.getLogger("aioswitcher")
+        old_level = lg.level
+        if i.get("debug_logging"):
+            lg.setLevel(logging.DEBUG)
+            lg.addHandler(logging.NullHandler())
+        try:
+            rnd = random.Random(i["seed"])
+            for n in range(i["n"]):
+                m = gen(rnd)
+                r = check(m)
+                if not r["ok"]:
+                    r.update(evaluations=n + 1, detail="with the aioswitcher logger at DEBUG" if i.get("debug_logging") else "",
+                             case={"prop": "C05", "kind": "check", "inputs": {"m": canon(m)}})
+                    return r
+            return {"ok": True, "evaluations": i["n"]}
+        finally:
+            lg.setLevel(old_level)
+    if k == "sweep_old":
         rnd = random.Random(i["seed"])
         for n in range(i["n"]):
             m = gen(rnd)
